@@ -172,7 +172,17 @@ def check(ctx: Ctx, col: Collector, tier: str) -> None:
         res = set()
         for n in ast.walk(fi.node):
             if isinstance(n, ast.Call) and getattr(n.func, "id", "") == "_get_shortest_public_reexport":
-                kw = {k.arg: ast.unparse(k.value).replace("stubs_generator.", "self.").replace("self.api", "api") for k in n.keywords}
+                kw = {}
+                for k in n.keywords:
+                    # the arguments are compared by value on a sample module (`".".join(id.split("/"))` and `id.replace("/", ".")` are the same argument)
+                    mod = Obj("Module", (("name", Const("utils")), ("id", Const("pkg/sub/utils"))))
+                    api = Obj("API", (("reexport_map", Sym("api.reexport_map")),))
+                    st = State({"module": mod, "api": api, "self": Sym("self"), "self.api": api, "stubs_generator": Sym("self"), "stubs_generator.api": api})
+                    try:
+                        vals = {repr(v) for v, _ in ctx.interp(fi).eval(k.value, st)}
+                    except Exception:  # noqa: BLE001
+                        vals = set()
+                    kw[k.arg] = sorted(vals)[0] if len(vals) == 1 else ast.unparse(k.value).replace("stubs_generator.", "self.").replace("self.api", "api")
                 res.add(repr(sorted(kw.items())))
         return res
     a, b = reexport_call_shapes(mfi), reexport_call_shapes(gfi)
